@@ -200,6 +200,10 @@ func (e *sfEnv) isLogger(x ast.Expr) bool {
 	if !ok {
 		return false
 	}
+	// schedule points of the verification hook (stream/zz_verif_points*.go): no-ops in a normal build
+	if id, isID := c.Fun.(*ast.Ident); isID && id.Name == "verifPoint" && e.locals["verifPoint"] == "" && e.params["verifPoint"] == "" {
+		return true
+	}
 	s1, ok := c.Fun.(*ast.SelectorExpr)
 	if !ok {
 		return false
